@@ -221,37 +221,63 @@ def read_jsonl(path):
 
 
 def run_search(b, sim, seed, tier, budget_s, mode='search', nworkers=None, count=None, traces=False, extra_env=None):
-    """Fan a search out to worker processes. Returns dict with merged summary, violations, crashes."""
+    """Fan a search out to worker processes. A worker that dies (a panic in a goroutine of the library kills the
+    process) is recorded as a crash and restarted behind the run that killed it. Returns merged summary, violations, crashes."""
     binary = b.binary(sim)
     nworkers = nworkers or NCPU
     wd = b.scratch('%s-%s' % (sim, mode))
-    procs = []
-    for w in range(nworkers):
+    t_end = time.time() + budget_s
+    hard = time.time() + budget_s * 3 + 300   # watchdog guarding the harness itself
+
+    def start(w, gen, start_idx):
+        left = max(0.0, t_end - time.time())
         extra = {'VERIF_MODE': mode, 'VERIF_SEED': seed, 'VERIF_WORKER': w, 'VERIF_NWORKERS': nworkers, 'VERIF_TIER': tier,
-                 'VERIF_BUDGET_MS': int(budget_s * 1000), 'VERIF_OUT': os.path.join(wd, 'out.%d' % w)}
+                 'VERIF_BUDGET_MS': int(left * 1000), 'VERIF_OUT': os.path.join(wd, 'out.%d.%d' % (w, gen)), 'VERIF_START_IDX': start_idx}
         if count is not None:
             extra['VERIF_COUNT'] = count
         if traces:
             extra['VERIF_TRACES'] = 1
         if extra_env:
             extra.update(extra_env)
-        procs.append((w, spawn(binary, sim, extra, os.path.join(wd, 'err.%d' % w))))
-    # watchdog: generous wall limit guarding the harness itself
-    hard = time.time() + budget_s * 3 + 300
-    hung = []
-    for w, p in procs:
-        try:
-            p.wait(timeout=max(1, hard - time.time()))
-        except subprocess.TimeoutExpired:
-            p.kill()
-            p.wait()
-            hung.append(w)
+        return spawn(binary, sim, extra, os.path.join(wd, 'err.%d.%d' % (w, gen)))
+
+    live = {w: (0, start(w, 0, 0)) for w in range(nworkers)}
+    files = [(w, 0) for w in range(nworkers)]
+    crashes = []
+    while live:
+        time.sleep(0.05)
+        for w, (gen, p) in list(live.items()):
+            rc = p.poll()
+            hung = False
+            if rc is None:
+                if time.time() < hard:
+                    continue
+                p.kill()
+                p.wait()
+                rc, hung = -9, True
+            del live[w]
+            recs = read_jsonl(os.path.join(wd, 'out.%d.%d' % (w, gen)))
+            done = any(r.get('t') == 'summary' for r in recs)
+            if done and rc == 0:
+                continue
+            begins = [r for r in recs if r.get('t') == 'B']
+            err = ''
+            try:
+                err = open(os.path.join(wd, 'err.%d.%d' % (w, gen)), errors='replace').read()
+            except OSError:
+                pass
+            crashes.append({'worker': w, 'last': begins[-1] if begins else None, 'stderr': err, 'hung': hung, 'rc': rc, 'done': len(begins)})
+            # restart behind the run that killed the process
+            if begins and not hung and time.time() < t_end - 1 and len(crashes) < 400:
+                nxt = begins[-1]['idx'] + nworkers
+                live[w] = (gen + 1, start(w, gen + 1, nxt))
+                files.append((w, gen + 1))
     merged = {'evaluations': 0, 'nontrivial': 0, 'violations': 0, 'blocked': 0, 'events': 0, 'sim_ns': 0, 'shapes': set(),
               'probes': {}, 'faults': {}, 'blocked_by': {}, 'notes': {}, 'sigs': {}, 'samples': [], 'wall_ms': 0, 'exhausted': True}
-    viols, crashes, runs = [], [], {}
-    for w, p in procs:
-        recs = read_jsonl(os.path.join(wd, 'out.%d' % w))
-        summ = [r for r in recs if r.get('t') == 'summary']
+    viols, runs = [], {}
+    for w, gen in files:
+        recs = read_jsonl(os.path.join(wd, 'out.%d.%d' % (w, gen)))
+        summ = [r for r in recs if r.get('t') in ('summary', 'partial')]
         for r in recs:
             if r.get('t') == 'viol':
                 viols.append(r)
@@ -268,16 +294,10 @@ def run_search(b, sim, seed, tier, budget_s, mode='search', nworkers=None, count
             if len(merged['samples']) < 6:
                 merged['samples'].extend(s.get('samples', [])[:2])
             merged['wall_ms'] = max(merged['wall_ms'], s.get('wall_ms', 0))
-            merged['exhausted'] = merged['exhausted'] and s.get('exhausted', False)
-        if not summ or p.returncode != 0:
-            begins = [r for r in recs if r.get('t') == 'B']
-            err = ''
-            try:
-                err = open(os.path.join(wd, 'err.%d' % w), errors='replace').read()
-            except OSError:
-                pass
-            crashes.append({'worker': w, 'last': begins[-1] if begins else None, 'stderr': err, 'hung': w in hung,
-                            'rc': p.returncode, 'done': sum(1 for r in recs if r.get('t') == 'B')})
+            if s.get('t') != 'summary' or not s.get('exhausted', False):
+                merged['exhausted'] = False
+        else:
+            merged['exhausted'] = False
     merged['runs'] = runs
     return merged, viols, crashes
 
@@ -320,7 +340,7 @@ def run_replay(b, sim, scenarios, verbose=False, timeout=600, parallel=None):
         begun = [r['id'] for r in recs if r.get('t') == 'B']
         if begun and begun[-1] not in done:
             err = open(os.path.join(wd, 'err.%d' % w), errors='replace').read()
-            results[begun[-1]] = {'t': 'crash', 'id': begun[-1], 'sig': crash_sig(err, hung), 'detail': err[-6000:], 'trace': '0'}
+            results[begun[-1]] = {'t': 'crash', 'id': begun[-1], 'sig': crash_sig(err, hung), 'detail': crash_detail(err), 'trace': '0'}
             # scenarios after the crashed one were not executed: run them separately
             rest = [(i, sc) for i, sc in chunks[w] if i not in done and i != begun[-1]]
             if rest:
@@ -331,6 +351,21 @@ def run_replay(b, sim, scenarios, verbose=False, timeout=600, parallel=None):
                     results[i] = r
     shutil.rmtree(wd, ignore_errors=True)
     return results
+
+
+def crash_detail(stderr):
+    """The panic message and the stack of the panicking goroutine."""
+    lines = stderr.splitlines()
+    for i, l in enumerate(lines):
+        if l.startswith('panic: ') or l.startswith('fatal error: '):
+            out = []
+            for l2 in lines[i:i + 60]:
+                out.append(l2)
+                if len(out) > 3 and l2.startswith('goroutine ') and not out[-2].strip() and sum(1 for x in out if x.startswith('goroutine ')) > 1:
+                    out.pop()
+                    break
+            return '\n'.join(out)
+    return stderr[-3000:]
 
 
 def crash_sig(stderr, hung=False):
@@ -541,7 +576,7 @@ def check(prop, tier, seed):
                 continue
             sig = crash_sig(c['stderr'], c['hung'])
             if sig not in findings:
-                findings[sig] = (sim, sc, c['stderr'][-3000:])
+                findings[sig] = (sim, sc, crash_detail(c['stderr']))
     # confirm, shrink, classify
     violations, known = [], []
     for sig, (sim, sc, detail) in findings.items():
@@ -755,7 +790,16 @@ def main(argv):
             merged['shapes'] = len(merged['shapes'])
             merged.pop('runs')
             merged['samples'] = merged['samples'][:1]
-            print(json.dumps(merged, indent=1)[:6000])
+            if os.environ.get('VERIF_FULL'):
+                print(json.dumps(merged, indent=1)[:6000])
+            else:
+                brief = {k: merged[k] for k in ('evaluations', 'nontrivial', 'violations', 'blocked', 'blocked_by', 'shapes', 'events', 'wall_ms', 'exhausted')}
+                brief['simulated_s'] = round(merged['sim_ns'] / 1e9, 1)
+                print(json.dumps(brief))
+                print('SIGS ' + json.dumps(merged['sigs'], indent=1))
+                print('NOTES ' + json.dumps(merged['notes'], indent=1))
+                print('FAULTS ' + json.dumps(merged['faults']))
+                print('PROBES ' + json.dumps(merged['probes']))
             seen = set()
             for v in viols:
                 if v['sig'] in seen:
